@@ -94,6 +94,24 @@ def h_pairs(ctx, a, others):
               same(list(ca2.cdb), ctx.oracle_struct(solo["cdb"])))
 
 
+def h_after_raw(ctx, a, raw_opcode):
+    """a raw command built straight from the SCSICommand base class (6-, 10-, 12- or 16-byte group) comes first, then
+    the first command of class A ever built in this process: A's CDB has the length of A's own operation code and
+    the bytes its arguments give (compared with the standard's layout, since no earlier observation of A exists)"""
+    from pyscsi.pyscsi.scsi_command import SCSICommand
+    from pyscsi.pyscsi.scsi_opcode import OpCode
+    st, raw = ctx.attempt(SCSICommand, OpCode("RAW", raw_opcode, {}), 0, 0)
+    spec, cls, ca = _build(ctx, a, "a_")
+    ctx.check("first %s after a raw %02Xh command: CDB length" % (a, raw_opcode), len(ca.cdb) == ctx.oracle(spec["length"]))
+    d = cls.unmarshall_cdb(ca.cdb)
+    enc = cls.marshall_cdb(d)
+    ctx.check("first %s after a raw %02Xh command: class-level encoding has the class's length" % (a, raw_opcode),
+              len(enc) == ctx.oracle(spec["length"]))
+    ctx.check("first %s after a raw %02Xh command: operation code byte" % (a, raw_opcode), ca.cdb[0] == ctx.oracle(spec["opcode"]))
+    if st == "ok":
+        ctx.check("the raw command keeps the length of its own group", len(raw.cdb) == ctx.oracle(L.cdb_length(raw_opcode)))
+
+
 def h_triple(ctx, a, b, c):
     """A built, then B and C built with symbolic arguments (in both orders), A observed in between"""
     spec, cls, ca = _build(ctx, a, "a_")
@@ -149,6 +167,10 @@ def obligations(tier):
             obs.append(Ob("triple/%s/%s/%s" % (a, b, c), MOD, "h_triple", {"a": a, "b": b, "c": c}))
     for lid in (1, 4):
         obs.append(Ob("repeat-marshalling/xcopy%d" % lid, MOD, "h_repeat_marshalling", {"lid": lid}))
+    for a in (reps if tier == "quick" else cmds):
+        for op in (0x08, 0x2F, 0xA8, 0x8F):
+            if L.cdb_length(op) != L.CDB[a]["length"]:
+                obs.append(Ob("after-raw-command/%s/%02X" % (a, op), MOD, "h_after_raw", {"a": a, "raw_opcode": op}, canary=False))
     obs += T.obligations(tier)
     return obs
 
